@@ -56,6 +56,7 @@ def c06(res):
         for b in (2, 3):
             replay_step(res, "lane_t", kinds=K_REQ, modes="base", backend=b)
         replay_step(res, "byte_t", kinds=K_REQ, modes="base", profile="dbgchk")
+    feed_traces(res, fam(t, 250000, 3000000), kinds="0")
 
 
 def c07(res):
@@ -66,6 +67,7 @@ def c07(res):
         replay_step(res, f, kinds=K_RESP, modes="base")
     if t == "thorough":
         replay_step(res, "byte_t", kinds=K_RESP, modes="base", profile="dbgchk")
+    feed_traces(res, fam(t, 250000, 3000000), kinds="1")
 
 
 def c08(res):
@@ -77,6 +79,7 @@ def c08(res):
     if t == "thorough":
         for b in (2, 3):
             replay_step(res, "lane_t", kinds=HEADS, modes="base", backend=b)
+    feed_traces(res, fam(t, 250000, 3000000), kinds="0,1,2")
 
 
 def c09(res):
@@ -85,6 +88,7 @@ def c09(res):
     for f in fam(t, ["byte_q", "ext_q", "lane_q", "chunk_q", "digits"], ["byte_t", "ext_t", "lane_t", "chunk_t", "digits"]):
         replay_step(res, f, kinds=K_CHUNK, modes="base")
         replay_step(res, f, kinds=K_CHUNK, modes="base", profile="dbgchk")
+    feed_traces(res, fam(t, 250000, 3000000), kinds="3")
 
 
 def c10(res):
@@ -92,6 +96,7 @@ def c10(res):
     mc_head(res, "errkind", invs=["InvLanguage"], L=fam(t, "1", "2"), caps="{0, 1, 2, 100000}")
     for f in fam(t, ["byte_q", "ext_q", "lines_q"], ["byte_t", "ext_t", "lines_t", "hdrext_t"]):
         replay_step(res, f, kinds=HEADS, modes="base")
+    feed_traces(res, fam(t, 250000, 3000000), kinds="0,1,2")
 
 
 def c11(res):
@@ -99,6 +104,7 @@ def c11(res):
     mc_head(res, "honest-partial", invs=["InvHonest", "InvDeferredClosed"], L=fam(t, "1", "2"), caps="{0, 1, 2, 100000}")
     for f in fam(t, ["byte_q", "ext_q", "chunk_q"], ["byte_t", "ext_t", "chunk_t", "lane_t"]):
         replay_step(res, f, modes="completion")
+    feed_traces(res, fam(t, 250000, 3000000), kinds="0,1,2,3")
 
 
 def c02(res):
@@ -107,6 +113,7 @@ def c02(res):
             L=fam(t, "1", "2"), caps="{0, 1, 2, 100000}")
     for f in fam(t, ["byte_q", "ext_q", "chunk_q"], ["byte_t", "ext_t", "chunk_t", "lines_t"]):
         replay_step(res, f, modes="extend")
+    feed_traces(res, fam(t, 250000, 3000000), kinds="0,1,2,3")
 
 
 def c03(res):
@@ -114,6 +121,7 @@ def c03(res):
     mc_head(res, "framing", invs=["InvFraming"], L=fam(t, "2", "3"), caps=fam(t, "{1, 100000}", "{0, 1, 2, 100000}"))
     for f in fam(t, ["byte_q", "ext_q", "lane_q", "lines_q", "chunk_q"], ["byte_t", "ext_t", "lane_t", "lines_t", "chunk_t", "hdrext_t"]):
         replay_step(res, f, modes="base")
+    feed_traces(res, fam(t, 250000, 3000000), kinds="0,1,2,3")
 
 
 def c04(res):
@@ -121,6 +129,7 @@ def c04(res):
     mc_head(res, "spans", invs=["InvSpans", "InvPast"], L=fam(t, "2", "3"))
     for f in fam(t, ["byte_q", "ext_q", "lane_q", "len_q"], ["byte_t", "ext_t", "lane_t", "len_t", "lines_t"]):
         replay_step(res, f, kinds=HEADS, modes="entries" if f.startswith("ext") else "base")
+    feed_traces(res, fam(t, 250000, 3000000), kinds="0,1,2")
 
 
 def c05(res):
@@ -128,6 +137,7 @@ def c05(res):
     mc_head(res, "hygiene", invs=["InvHygiene"], L=fam(t, "2", "3"))
     for f in fam(t, ["byte_q", "lane_q", "ext_q"], ["byte_t", "lane_t", "ext_t", "ext17_t", "hdrext_t"]):
         replay_step(res, f, kinds=HEADS, modes="base")
+    feed_traces(res, fam(t, 250000, 3000000), kinds="0,1,2")
 
 
 def c14(res):
@@ -136,6 +146,7 @@ def c14(res):
             L=fam(t, "2", "3"), caps=fam(t, "{100000}", "{1, 100000}"))
     for f in fam(t, ["byte_q", "ext_q", "lane_q", "lines_q"], ["byte_t", "ext_t", "lane_t", "lines_t", "hdrext_t"]):
         replay_step(res, f, kinds="0,1", modes="base")
+    feed_traces(res, fam(t, 250000, 3000000), kinds="0,1")
 
 
 def c15(res):
@@ -158,6 +169,7 @@ def c17(res):
             caps="{0, 1, 2}")
     for f in fam(t, ["lines_q", "byte_q"], ["lines_t", "byte_t", "ext_t"]):
         replay_step(res, f, kinds=HEADS, modes="entries,caplaw")
+    feed_traces(res, fam(t, 250000, 3000000), kinds="0,1,2")
 
 
 def c19(res):
@@ -281,6 +293,59 @@ def work_traces(res, sizes, backends=(None,)):
             res.other_tags[prop] = res.other_tags.get(prop, 0) + 1
     if files and len(res.samples) < 8:
         res.samples.append({"work_events": open(files[0]).read().splitlines()[:3]})
+    shutil.rmtree(wd, ignore_errors=True)
+
+
+FEED_CHECKS = {
+    "C02": ["ConfPartialFields", "RecStable", "RecFieldsStable"],
+    "C03": ["RecFramingC", "RecFraming"],
+    "C04": ["RecSpans"],
+    "C05": ["RecSpans", "RecHygiene"],
+    "C06": ["ConfReqLine", "ConfFieldsReq"],
+    "C07": ["ConfStatusLine", "ConfFieldsResp"],
+    "C08": ["ConfHdrsDefault", "ConfHeadersDefault"],
+    "C09": ["ConfChunk"],
+    "C10": ["ConfErrKind"],
+    "C11": ["ConfHonest"],
+    "C14": ["ConfHdrsOptions", "ConfHeadersOptions"],
+    "C17": ["ConfCapacity", "ConfHeaderCount"],
+    "C01": ["NoPanic"],
+}
+
+
+def feed_traces(res, events, kinds="0,1,2,3", checks=None):
+    """per-byte streaming traces of real results (harvested test inputs + random
+    grammar-derived messages with mutations), validated by TLC against TraceFeed"""
+    checks = checks or FEED_CHECKS[res.prop]
+    wd = os.path.join(WORK, "run", "%s-%s" % (res.prop, res.tier), "feed")
+    shutil.rmtree(wd, ignore_errors=True)
+    os.makedirs(wd)
+    out = os.path.join(wd, "feed")
+    args = ["feed", "--out", out, "--events", str(events), "--shards", str(NCPU), "--seed", str(res.seed),
+            "--kinds", kinds, "--harvest", families.harvest_file()]
+    r = run_driver(args)
+    if r.returncode != 0:
+        res.violation("the code under test crashed while streaming traces were recorded (rc=%d)" % r.returncode,
+                      {"kind": "feed-crash", "key": "feed-crash", "stderr": r.stderr[-500:]})
+        return
+    info = json.loads(r.stdout.strip().splitlines()[-1])
+    files = [out + ".%d" % i for i in range(NCPU)]
+    cfg = "SPECIFICATION TSpec\nCONSTANT CheckNames = {%s}\nPOSTCONDITION Accepted\nCHECK_DEADLOCK FALSE\n" % ", ".join('"%s"' % c for c in checks)
+    wdt = os.path.join(WORK, "run", "%s-%s" % (res.prop, res.tier), "tlc-feed")
+    results = validate_traces(res, "feed", "TraceFeed", cfg, files)
+    res.traces += info["inputs"]
+    res.evaluations += info["events"]
+    res.nontrivial += info["inputs"]
+    for tf, ok, idx, n, inv in results:
+        if ok:
+            continue
+        # which check failed is printed by the trace specification
+        sl, rel = trace_slice(tf, idx - 1 if idx > 1 else idx, start_ev=("reset",))
+        ev = sl[rel - 1] if 0 < rel <= len(sl) else ""
+        msg = "recorded streaming trace rejected by TraceFeed at event %d (checks %s): %s" % (idx - 1, ",".join(checks), ev[:300])
+        res.violation(msg, {"kind": "feedtrace", "events": sl[:rel], "checks": checks, "key": "feed:" + ev[:200]})
+    if len(res.samples) < 8:
+        res.samples.append({"feed_trace_head": open(files[0]).read().splitlines()[:4]})
     shutil.rmtree(wd, ignore_errors=True)
 
 
